@@ -144,27 +144,28 @@ def oracle(ks, inp, out, fold_numbers=True):
 
 
 def stable_oracle(ks, inp, out):
-    """documentation: 'The sort is stable: records that compare equal will sort in the order they were encountered'"""
+    """documentation: 'The sort is stable: records that compare equal will sort in the order they were encountered'.
+    Checked at the granularity the verb works at: groups of identical key text whose heads compare equal must come out
+    in first-appearance order (records with identical key text always travel together -- the property statement)."""
     names = [k for k, _ in ks]
     keyed = [r for r in inp if all(n in dict(r) for n in names)]
-    o = out[:len(keyed)]
-    idx = {}
+    first, heads = {}, {}
     for i, r in enumerate(keyed):
-        idx.setdefault(tuple(r), []).append(i)
-    used = {}
+        t = b",".join(dict(r)[n] for n in names)
+        if t not in first:
+            first[t] = i
+            heads[t] = dict(r)
     order = []
-    for r in o:
-        t = tuple(r)
-        j = used.get(t, 0)
-        used[t] = j + 1
-        if t not in idx or j >= len(idx[t]):
+    for r in out[:len(keyed)]:
+        t = b",".join(dict(r)[n] for n in names)
+        if t not in first:
             return None
-        order.append(idx[t][j])
-    ds = [dict(r) for r in keyed]
+        if t not in order:
+            order.append(t)
     for a in range(len(order)):
         for b in range(a + 1, len(order)):
-            if order[a] > order[b] and chain(ks, ds[order[a]], ds[order[b]], False) == 0:
-                return [c11.show([keyed[order[a]]])[0], c11.show([keyed[order[b]]])[0]]
+            if first[order[a]] > first[order[b]] and chain(ks, heads[order[a]], heads[order[b]], False) == 0:
+                return [order[a].decode("latin1"), order[b].decode("latin1")]
     return None
 
 
@@ -361,7 +362,7 @@ def run(ctx):
         break
     seen = {}
     for v in oracle_bad:
-        key = (v.get("class"), v.get("law"))
+        key = (v.get("class"), v.get("law") if v.get("class") == "other" else "")
         seen[key] = seen.get(key, 0) + 1
         if seen[key] > (1 if v.get("class") != "other" else 3):
             continue
@@ -390,6 +391,19 @@ def fixed_probes(ctx, oracle_bad):
         if st != 0 or got != w:
             oracle_bad.append({"argv": ["mlr"] + c11.IOFLAGS + args, "input": c11.show(recs), "observed": c11.show(out), "expected": [x.decode() for x in w],
                                "law": "numeric order: numbers by value before empties and strings (reversed for -nr)", "class": "other"})
+    # fixed witnesses of the recorded finding classes (reported under their class while they reproduce)
+    def probe(args, lines, want, law, cls):
+        recs = [[tuple(f.encode().split(b":", 1)) for f in ln.split(";")] for ln in lines]
+        st, out, err = c11.run_verbs(ctx, [(args, recs)])[0]
+        ctx.count(("finding-probe", args, lines))
+        if st != 0 or c11.show(out) != want:
+            oracle_bad.append({"argv": ["mlr"] + c11.IOFLAGS + args, "input": lines, "observed": c11.show(out), "expected": want, "law": law, "class": cls})
+    probe(["sort", "-nf", "x"], ["x:0x1;i:0", "x:10;i:1", "x:3;i:2", "x:1.0;i:3", "x:1e0;i:4", "x:12;i:5", "x:5;i:6", "x:11;i:7", "x:1;i:8", "x:8;i:9", "x:4;i:10", "x:2.0;i:11", "x:2;i:12"],
+          ["x:0x1;i:0", "x:1.0;i:3", "x:1e0;i:4", "x:1;i:8", "x:2.0;i:11", "x:2;i:12", "x:3;i:2", "x:4;i:10", "x:5;i:6", "x:8;i:9", "x:10;i:1", "x:11;i:7", "x:12;i:5"],
+          "documentation: the sort is stable (records that compare equal keep their input order)", "sort-not-stable-for-equal-comparing-groups")
+    probe(["sort", "-c", "y"], ["y:1E2", "y:1e0"], ["y:1e0", "y:1E2"], "ordered by the keys in precedence order (case-folded)", "sort-c-does-not-fold-number-like-text")
+    probe(["sort", "-f", "a", "-f", "b"], ["a:x,y;b:z;i:0", "a:x;b:zz;i:1", "a:x;b:y,z;i:2"], ["a:x;b:y,z;i:2", "a:x;b:zz;i:1", "a:x,y;b:z;i:0"],
+          "ordered by the keys in precedence order", "grouping-key-comma-collision")
     # DSL sort of a map by its keys under the default (numeric) collation
     for keys in ([b"1a", b"9", b"10"], [b"10", b"9", b"1a"], [b"b", b"2", b"10", b"a"]):
         rec = [[(k, b"v") for k in keys]]
